@@ -592,7 +592,10 @@ class C20(Prop):
                 gu = DocGen(rng, multiline=(i % 7 == 3))
                 utree = gu.mutate(dtree) if rng.random() < 0.85 else gu.table(0, aot_ok=True)
                 utext = gu.render(utree)
-            out.append(("random-load", {"k": "load", "default": dtext, "user": utext, "n": 3, "oneline": one}))
+            c_ = {"k": "load", "default": dtext, "user": utext, "n": 3, "oneline": one}
+            if utext is not None and rng.random() < 0.1:
+                c_["symlink"] = True
+            out.append(("random-load", c_))
         return out
 
     # ---- real code ----
@@ -633,7 +636,13 @@ class C20(Prop):
                 return {"wrong_dir": [cdir, tmp], "loads": [], "files": [None], "only_file": [], "d": d_, "u": u_, "file_tree": None}
             path = os.path.join(cdir, APP + ".toml")
             if case["user"] is not None:
-                with open(path, "wb") as f:
+                target = path
+                if case.get("symlink"):
+                    # the user's file is a symbolic link into a directory of dotfiles
+                    os.makedirs(os.path.join(tmp, "dotfiles"), exist_ok=True)
+                    target = os.path.join(tmp, "dotfiles", APP + ".toml")
+                    os.symlink(target, path)
+                with open(target, "wb") as f:
                     f.write(case["user"].encode("utf-8"))
 
             def snap():
